@@ -25,6 +25,9 @@ def command_of(tc, fmt):
     parts = [f'echo {tc["id"]} >> "$RUN_LOG"']
     if tc["beh"] == "noterm":
         parts.insert(0, "trap '' TERM")       # the shell ignores SIGTERM: only SIGKILL ends it
+    if tc.get("sab"):
+        # the carrier's state file becomes a directory: the EXIT trap can no longer write it (Markdown documents only)
+        parts.append('for __d in "$TMPDIR"/.state.*; do rm -rf "$__d/state"; mkdir -p "$__d/state"; done')
     if tc["dur"] > 0:
         # the late marker shows whether a command that ran into a limit was really aborted
         parts.append(f'sleep {tc["dur"]}')
